@@ -1,6 +1,7 @@
 // Core of the verification harness: byte strings, case (de)serialisation, fork-isolated
 // execution, statistics, rapidcheck glue, replay.  Every property TU includes this.
 #pragma once
+#include <sanitizer/allocator_interface.h>
 #include <rapidcheck.h>
 
 #include <algorithm>
@@ -338,7 +339,10 @@ const char *__asan_default_options() {
   return "exitcode=66:abort_on_error=0:detect_leaks=0:allocator_may_return_null=1:handle_abort=0:"
          // a bounded quarantine: the default 256 MB makes the (forking) worker's resident set grow to > 1 GB over a long
          // run, and fork() cost grows with it; 32 MB is far more than one case frees
-         "detect_stack_use_after_return=0:print_summary=1:max_malloc_fill_size=0:quarantine_size_mb=32";
+         // malloc_context_size: every distinct allocation/free stack is kept for ever in ASan's stack depot; the generator's deeply
+         // nested call chains made a worker grow by ~1.5 MB/s (1.8 GB after 90 minutes, each fork() paying for it).  Ten frames
+         // keep the depot flat; the stack of the faulting ACCESS in a report is not affected by this limit.
+         "detect_stack_use_after_return=0:print_summary=1:max_malloc_fill_size=0:quarantine_size_mb=32:malloc_context_size=10";
 }
 const char *__ubsan_default_options() { return "print_stacktrace=1:halt_on_error=1:exitcode=66"; }
 }
@@ -870,6 +874,9 @@ int vf_main(int argc, char **argv, const char *prop_id, std::function<Case()> ge
       std::string s = c.ser();
       Result r = run(c);
       stats.add(s, r);
+      if (getenv("VF_MEMDEBUG") && stats.evaluations % 500 == 0)
+        fprintf(stderr, "memdebug: cases=%lld allocated=%zu heap=%zu\n", stats.evaluations, (size_t)__sanitizer_get_current_allocated_bytes(),
+                (size_t)__sanitizer_get_heap_size());
       if (r.fail) {
         lastfail = s;
         lastmsg = r.msg;
